@@ -510,6 +510,9 @@ def run_axil(scn):
               % (ma.b_n, len(ma.writes), ma.r_n, len(ma.reads_), bench.cycle["sys"], t))
         # reads
         for k, (tr, data, resp) in enumerate(ma.log["r"]):
+            if k >= len(ma.reads_) or k >= len(ma.log["ar"]):
+                V("spurious_response", "m%d.r" % mi, "read response #%d at cycle %d: the master had %d read addresses accepted" % (k, tr, len(ma.log["ar"])), tr)
+                break
             op = ma.reads_[k]
             d = dec(op["addr"])
             t_ar = ma.log["ar"][k][0]
@@ -616,6 +619,9 @@ def run_axi(scn):
             V("bus_hung", "m%d" % mi, "%d/%d writes, %d/%d reads completed after %d cycles (timeout %d)"
               % (ma.b_n, len(ma.writes), ma.r_n, len(ma.reads_), bench.cycle["sys"], t))
         for k, beats in enumerate(ma.r_log):
+            if k >= len(ma.reads_):
+                V("spurious_response", "m%d.r" % mi, "read response #%d received, only %d reads were issued (surplus response)" % (k, len(ma.reads_)), beats[0][0] if beats else None)
+                break
             op = ma.reads_[k]
             d = dec(op["addr"])
             accepted = d is not None and any(e[1] == op["addr"] for e in sag[d].log["ar"])
@@ -634,6 +640,9 @@ def run_axi(scn):
                 if resp != 2 or data != 0xffffffff:
                     V("wrong_error_value", "m%d.r" % mi, "read %#x not accepted by any slave returned data=%#x resp=%d (expected all ones, SLVERR)" % (op["addr"], data, resp), tr)
         for k, (tb, resp, id_) in enumerate(ma.b_log):
+            if k >= len(ma.writes):
+                V("spurious_response", "m%d.b" % mi, "write response #%d received, only %d writes were issued (surplus response)" % (k, len(ma.writes)), tb)
+                break
             op = ma.writes[k]
             d = dec(op["addr"])
             accepted = d is not None and any(e[1] == op["addr"] and e[2] == op["data"][0] for e in sag[d].log["wbeats"])
